@@ -385,7 +385,8 @@ def run_c10(job):
             kw_ = dict(name=job["shadow"]) if (c == tc and job.get("shadow")) else {}     # the trainable connection may be registered under a shadow input name
             N[c_["in"]].connect(N[c_["out"]], blocking=False, delay=c_["exp"] * T, delay_dist=dd, window=c_["window"], skip=c_["skip"], jitter=const.Jitter.LATEST, **kw_)
         return N
-    tdist = base.TrainableDist.create(delay=mn * T, min=mn * T, max=mx * T, interp="zoh")
+    # the distribution may be constructed at any delay inside its range: the computation graph is generated for the MINIMAL delay all the same
+    tdist = base.TrainableDist.create(delay=job.get("create_at", mn) * T, min=mn * T, max=mx * T, interp="zoh")
     NT = mk(tdist)
     cg = generate_graphs(NT, job["tmax"] * T, rng=jax.random.PRNGKey(job.get("seed", 0)), num_episodes=1)
     res["raw"] = dict(zip(("verts", "edges"), extract_graph(cg, 0)))
